@@ -43,7 +43,7 @@ def run(s):
         acc.sweep(s, ro, cur, {'workload': 'pair-history'}, after=(ev or {}).get('msg_cls'))
     K.pair_histories(s, timing='any', text='notes', on_state=on_pair_state)
     pool = gen.text_pool('notes')
-    n = 200 if q else 8000
+    n = 200 if q else 20000
     for i in range(n):
         if not s.mine(i):
             continue
@@ -51,7 +51,7 @@ def run(s):
         stories = [para_story(rng, 'P%d' % k, pool) for k in range(rng.randint(0, 5))]
         txt = B.ro_doc('RO', 1, stories, pretty=rng.random() < 0.5)
         acc.sweep(s, s.load(txt), txt, {'paras': i}, after='initial')
-    nh = 100 if q else 4000
+    nh = 100 if q else 12000
     w = K.kind_weights(1.0, 0.6, 0.3, 0.0)
     w['roStorySend'] = 3.0
     for h in range(nh):
